@@ -16,6 +16,9 @@ import (
 
 var ctx = context.Background()
 
+// DelayBound selects delay bounding for the concurrent scenarios (set by the quick tiers).
+var DelayBound bool
+
 // inst is one index over harness rows and a harness blob source.
 type Inst struct {
 	KV  *hs.KV
@@ -160,7 +163,7 @@ func ConcurrentScenario(sigPrefix string, s BlobSet, perm []int, assign []int, k
 		order[i] = fmt.Sprintf("%s@g%d", s.Canon[p].Name, assign[i])
 	}
 	name := fmt.Sprintf("concurrent/%s/%s", s.Name, strings.Join(order, ","))
-	return &sched.Config{Name: name, Bound: bound, SigPrefix: sigPrefix + s.Name,
+	return &sched.Config{Name: name, Bound: bound, DelayBound: DelayBound, SigPrefix: sigPrefix + s.Name,
 		Body: func(x *sched.X) {
 			in := &Inst{KV: hs.NewKV("index"), Src: hs.NewMem("src")}
 			in.Src.Hook = func(store, op string, br blob.Ref) error {
